@@ -303,6 +303,28 @@ def check_bm_failed(ctx):
     ctx.expect(paths, ret=2)
 
 
+def check_bm_two_types(ctx):
+    size = 1 << 32
+    b0 = ctx.sandbox_base(32, "b0", aligned=False)
+    b2 = ctx.sandbox_base(32, "b2", aligned=False)
+    ctx.assume(z3.Or(z3.UGE(b0, b2 + BV(size, 64)), z3.UGE(b2, b0 + BV(size, 64))))
+    cell = ctx.sym("cell", 64)
+    v = ctx.sym("v", 64)
+    pad0 = ctx.sym("pad0", 64)
+    pad1 = ctx.sym("pad1", 64)
+    order = ctx.sym("order", 32)
+    ctx.assume(z3.ULE(order, 1), z3.UGE(cell, b0), z3.ULE(cell - b0, BV(size - 4, 64)), z3.Or(v == 0, z3.And(z3.UGT(v, b0), z3.ULT(v - b0, BV(size, 64)))))
+    paths = ctx.run("k_bm_two_types", [b0, b2, cell, v, pad0, pad1, order])
+    for q in paths:
+        if q.status != "ret":
+            ctx.fail(q, "a translation in a live sandbox ended %s (%s) because a sandbox of another plugin type is alive" % (q.status, q.info))
+            continue
+        lg = [e for e in q.user["log"] if e[0] == 1][0]
+        ctx.require(q, z3.And(lg[1] == rep_of(v, b0, 32), q.ret == v),
+                    "with a sandbox of another plugin type alive (any object bytes, either creation order) pointers are translated relative to their own sandbox")
+    ctx.expect(paths, ret=2)
+
+
 def check_bm_after_dead(ctx):
     size = 1 << 32
     bx = ctx.sandbox_base(32, "bx", aligned=False)
@@ -391,6 +413,7 @@ def jobs(tier, seed):
     for k in ("k_bm_store_load", "k_bm_load", "k_bm_store_null_load"):
         out.append(Job("C04_BM_" + k, src, [dict(name="BM " + k, fn=check_bm, kw=dict(k=k))], unwind=200))
     out.append(Job("C04_BM_cross", src, [dict(name="BM k_bm_store_load value in any live sandbox", fn=check_bm, kw=dict(k="k_bm_store_load", cross=True))], unwind=200, native=False))
+    out.append(Job("C04_BM_two_types", src, [dict(name="BM translation while a sandbox of another plugin type is alive", fn=check_bm_two_types)], unwind=200, native=False))
     out.append(Job("C04_BM_after_dead", src, [dict(name="BM lookup after the previously used sandbox was destroyed", fn=check_bm_after_dead)], unwind=200, native=False))
     out.append(Job("C04_BM_failed_create", src, [dict(name="BM k_bm_failed_create", fn=check_bm_failed)], unwind=200, native=False))
     from specs import C07
